@@ -148,7 +148,7 @@ Ltac clean_eqs :=
   | E : DAPing = DAProc _ |- _ => discriminate E
   | E : Some _ = Some _ |- _ => injection E as ?; subst
   | E : (if ?b then _ else _) = None |- _ => destruct b; try discriminate E
-  | E : (if ?b then _ else _) = Some _ |- _ => destruct b
+  | E : (if ?b then _ else _) = Some _ |- _ => destruct b eqn:?
   end; try discriminate.
 
 Ltac step_leaves H :=
